@@ -28,6 +28,23 @@ func c03Ops(maxL int) []listOp {
 		in.m.push(x, y, z)
 		return ""
 	}})
+	// batches that mix ordinary values with Stack values (refused under no-nesting, stored otherwise)
+	for _, shape := range []string{"S", "xS", "Sx", "xyS", "xSy", "Sxy", "xyzS", "SSx"} {
+		shape := shape
+		ops = append(ops, listOp{"Push(" + shape + ")", len(shape), always, func(in *listInst) string {
+			var vals []any
+			for _, ch := range shape {
+				if ch == 'S' {
+					vals = append(vals, stackage.Or().Push(in.fresh()))
+				} else {
+					vals = append(vals, in.fresh())
+				}
+			}
+			in.s.Push(vals...)
+			in.m.push(vals...)
+			return ""
+		}})
+	}
 	for n := 0; n <= 3; n++ {
 		n := n
 		ops = append(ops, listOp{fmt.Sprintf("src%d.Transfer(this)", n), n, always, func(in *listInst) string {
@@ -62,7 +79,7 @@ func c03Ops(maxL int) []listOp {
 			} else {
 				env = []any{"CONDITION", "kw", stackage.Eq, in.fresh()}
 			}
-			hadRoom := !in.m.full()
+			hadRoom := !in.m.full() && !(in.m.nonest && lab == "AND") // a decoded Stack is refused under no-nesting like any pushed Stack
 			before := in.s.Len()
 			s := in.s
 			err := s.Marshal(env...)
@@ -101,6 +118,7 @@ type c03Cfg struct {
 	listCfg
 	Ctor   string // "", "0", "-1": constructor argument for the no-capacity family
 	Policy bool   // an accept-everything push policy is installed (Push then takes the policy path)
+	NoNest bool   // the no-nesting option is set; batches then also offer Stack values
 }
 
 func c03Machine(c *Ctx, cfg c03Cfg) *Machine[*listInst] {
@@ -109,6 +127,9 @@ func c03Machine(c *Ctx, cfg c03Cfg) *Machine[*listInst] {
 	if cfg.Policy {
 		name += " push-policy"
 	}
+	if cfg.NoNest {
+		name += " no-nesting"
+	}
 	return &Machine[*listInst]{
 		Name: name,
 		New: func() *listInst {
@@ -116,6 +137,10 @@ func c03Machine(c *Ctx, cfg c03Cfg) *Machine[*listInst] {
 				in := cfg.build()
 				if cfg.Policy {
 					in.s.SetPushPolicy(func(...any) error { return nil })
+				}
+				if cfg.NoNest {
+					in.s.SetNoNesting(true)
+					in.m.nonest = true
 				}
 				return in
 			}
@@ -180,14 +205,15 @@ func c03Configs(c *Ctx) []c03Cfg {
 	for _, k := range kinds {
 		for _, fifo := range []bool{false, true} {
 			for _, cp := range caps {
-				out = append(out, c03Cfg{listCfg{k, fifo, cp, false, false, cp, false, false, false}, "", false})
+				out = append(out, c03Cfg{listCfg{k, fifo, cp, false, false, cp, false, false, false}, "", false, false})
 				if k == "LIST" || k == "AND" || !c.Quick() {
-					out = append(out, c03Cfg{listCfg{k, fifo, cp, false, false, cp, false, false, false}, "", true})
-					out = append(out, c03Cfg{listCfg{k, fifo, cp, false, false, cp, true, false, true}, "", false})
+					out = append(out, c03Cfg{listCfg{k, fifo, cp, false, false, cp, false, false, false}, "", true, false})
+					out = append(out, c03Cfg{listCfg{k, fifo, cp, false, false, cp, true, false, true}, "", false, false})
+					out = append(out, c03Cfg{listCfg{k, fifo, cp, false, false, cp, false, false, false}, "", false, true})
 				}
 			}
 			for _, ctor := range []string{"", "0", "-1"} {
-				out = append(out, c03Cfg{listCfg{k, fifo, 0, false, false, 3, false, false, false}, ctor, false})
+				out = append(out, c03Cfg{listCfg{k, fifo, 0, false, false, 3, false, false, false}, ctor, false, false})
 			}
 		}
 	}
